@@ -28,6 +28,9 @@ type C07Case struct {
 	// carries rules that run transformation chains over everything the peer controls
 	HostileTraffic bool `json:"hostile_traffic,omitempty"`
 	Limits         bool `json:"limits,omitempty"` // small body limits and rules that move them
+	// Refused: rules the compiler refuses while SecIgnoreRuleCompilationErrors is On, each followed by a directive
+	// that names the refused rule's id again
+	Refused bool `json:"refused,omitempty"`
 }
 
 var c07Once sync.Once
@@ -465,6 +468,48 @@ func genC07(t *rapid.T) *C07Case {
 		}
 		c.Limits = true
 	}
+	if rapid.IntRange(0, 5).Draw(t, "refused") == 0 {
+		var extra []string
+		for i, k := 0, rapid.IntRange(1, 3).Draw(t, "nrefused"); i < k; i++ {
+			rid := 9700 + i
+			switch rapid.IntRange(0, 5).Draw(t, "refusedkind") {
+			case 0: // a disruptive action in a chain member: the whole pending chain is dropped
+				extra = append(extra, fmt.Sprintf("SecRule ARGS \"@rx a\" \"id:%d,phase:2,pass,chain\"\nSecRule ARGS \"@rx b\" \"deny\"", rid))
+			case 1:
+				extra = append(extra, fmt.Sprintf("SecRule ARGS \"@rx a\" \"id:%d,phase:2,pass,chain\"\nSecRule ARGS \"@nosuchoperator b\" \"t:none\"", rid))
+			case 2:
+				extra = append(extra, fmt.Sprintf("SecRule ARGS \"@rx a\" \"id:%d,phase:2,pass,chain\"\nSecRule ARGS \"@rx b\" \"t:nosuchtransformation\"", rid))
+			case 3:
+				extra = append(extra, fmt.Sprintf("SecRule ARGS \"@rx (\" \"id:%d,phase:2,pass\"", rid))
+			case 4:
+				extra = append(extra, fmt.Sprintf("SecRule ARGS \"@rx a\" \"id:%d,phase:2,pass,nosuchaction\"", rid))
+			default: // a chain left open by the end of the rules that follow
+				extra = append(extra, fmt.Sprintf("SecRule ARGS \"@rx a\" \"id:%d,phase:2,pass,chain\"\nSecRule ARGS \"@rx b\" \"chain,deny\"", rid))
+			}
+			switch rapid.IntRange(0, 6).Draw(t, "refusedref") {
+			case 0:
+				extra = append(extra, fmt.Sprintf("SecRule ARGS \"@rx c\" \"id:%d,phase:2,pass\"", rid))
+			case 1:
+				extra = append(extra, fmt.Sprintf("SecRuleUpdateTargetById %d \"!ARGS:x\"", rid))
+			case 2:
+				extra = append(extra, fmt.Sprintf("SecRuleUpdateActionById %d \"pass,nolog\"", rid))
+			case 3:
+				extra = append(extra, fmt.Sprintf("SecRuleRemoveById %d", rid))
+			case 4:
+				extra = append(extra, fmt.Sprintf("SecRuleRemoveById %d-%d", rid-1, rid+1))
+			case 5:
+				extra = append(extra, fmt.Sprintf("SecAction \"id:%d,phase:1,pass,nolog,ctl:ruleRemoveById=%d,ctl:ruleRemoveTargetById=%d;ARGS:x\"", rid+50, rid, rid))
+			default:
+				extra = append(extra, fmt.Sprintf("SecAction \"id:%d,phase:2,pass,nolog\"", rid+50))
+			}
+		}
+		if rapid.Bool().Draw(t, "refusedfirst") {
+			lines = append(append([]string{"SecIgnoreRuleCompilationErrors On"}, extra...), lines...)
+		} else {
+			lines = append(append([]string{"SecIgnoreRuleCompilationErrors On"}, lines...), extra...)
+		}
+		c.Refused = true
+	}
 	c.Lines = lines
 	for _, l := range lines {
 		if strings.Contains(l, "@rbl") || strings.Contains(l, "@geoLookup") || strings.Contains(strings.ToLower(l), "secremoterules") {
@@ -705,6 +750,9 @@ func checkC07(c *C07Case) Result {
 		}
 		if c.HostileTraffic && c.Traffic && c.RawReq == nil {
 			res.Labels = append(res.Labels, "hostile-values-through-transformation-chains")
+		}
+		if c.Refused {
+			res.Labels = append(res.Labels, "refused-rules-then-references-to-their-ids")
 		}
 		res.NonTrivial = c.Traffic && len(c.Lines) > 0
 	} else {
